@@ -124,6 +124,7 @@ impl<'a> Analysis<'a> {
         }
     }
 
+    /// latest instant at which the value can have left the channel
     fn taken_time(&self, id: u32) -> u64 {
         let p = &self.led.pays[id as usize];
         let mut t = INF;
@@ -136,6 +137,50 @@ impl<'a> Analysis<'a> {
             }
         }
         t
+    }
+
+    /// earliest instant at which the value can have left the channel: the invocation of
+    /// the receive operation that obtained it, or of the (later dropped) receive future
+    /// that consumed it, or the instant the library destroyed it
+    fn take_begin(&self, id: u32) -> u64 {
+        let p = &self.led.pays[id as usize];
+        let mut t = INF;
+        for r in &p.recv_by {
+            t = t.min(self.ops[*r as usize].inv);
+        }
+        for d in &p.drops {
+            if !d.harness {
+                let by_recv_future = (d.in_op as usize) < self.ops.len()
+                    && self.ops[d.in_op as usize].k.is_recv()
+                    && d.in_op != p.by_op;
+                if by_recv_future {
+                    t = t.min(self.ops[d.in_op as usize].inv);
+                } else {
+                    t = t.min(d.stamp);
+                }
+            }
+        }
+        t
+    }
+
+    /// can the buffer length be derived from the ledger?  Not when a receive future
+    /// that had been polled was dropped and the payload has no destructor to observe
+    /// (it may have consumed one value invisibly).
+    fn len_known(&self) -> bool {
+        if self.prog.pay_is_zst() {
+            return false;
+        }
+        if self.prog.pay_droppable() {
+            return true;
+        }
+        !self.ops.iter().any(|o| o.k.is_recv() && matches!(o.res, Res::Dropped(n) if n >= 1))
+    }
+
+    /// a realtime operation that met a busy lock may always report "not done"
+    fn rt_busy(&self, i: usize) -> bool {
+        self.ops[i].k.is_rt()
+            && self.on[i].try_lock_failed > 0
+            && matches!(self.ops[i].res, Res::Bool(false) | Res::NoneV)
     }
 
     /// Expected channel state at a quiescent instant `t`.
@@ -806,13 +851,19 @@ fn capacity_preds(a: &Analysis, v: &mut Vec<Viol>, f: &mut Feat) {
         for o in a.ops.iter() {
             if o.k.is_recv() && o.inv <= *t {
                 r += got(o).len() as i64;
+                // a polled receive future that was dropped may have consumed one value
+                // (the documented caveat); invisible when the payload has no destructor
+                if !a.prog.pay_droppable() && matches!(o.res, Res::Dropped(n) if n >= 1) {
+                    r += 1;
+                }
             }
         }
-        // values destroyed by close() before t also leave the buffer
+        // values destroyed by the library (close, or consumed by a dropped receive
+        // future) also leave the buffer; the earliest instant that can have happened counts
         let mut destroyed = 0i64;
-        for p in a.led.pays.iter() {
+        for (id, p) in a.led.pays.iter().enumerate() {
             if p.created && !a.is_sentinel(p) && p.recv_by.is_empty() {
-                if p.drops.iter().any(|d| !d.harness && d.stamp <= *t && d.in_op != p.by_op) {
+                if p.drops.iter().any(|d| !d.harness && d.in_op != p.by_op) && a.take_begin(id as u32) <= *t {
                     destroyed += 1;
                 }
             }
@@ -912,7 +963,7 @@ fn progress_preds(a: &Analysis, out: &RunOut, v: &mut Vec<Viol>, f: &mut Feat) {
                 why = Some("no receiver handle is left".into());
             } else if !q.blocked_recv.is_empty() {
                 why = Some(format!("a receiver (op {}) is blocked at the same time", q.blocked_recv[0]));
-            } else if !a.prog.pay_is_zst() && q.len < n {
+            } else if a.len_known() && q.len < n {
                 why = Some(format!("the buffer has room ({} of {})", q.len, n));
             }
         } else {
@@ -920,26 +971,8 @@ fn progress_preds(a: &Analysis, out: &RunOut, v: &mut Vec<Viol>, f: &mut Feat) {
                 why = Some("no sender handle is left".into());
             } else if !q.blocked_send.is_empty() {
                 why = Some(format!("a sender (op {}) is blocked at the same time", q.blocked_send[0]));
-            } else if !a.prog.pay_is_zst() && q.len > 0 {
+            } else if a.len_known() && q.len > 0 {
                 why = Some(format!("{} value(s) are buffered", q.len));
-            }
-        }
-        // stale waker?
-        if o.k.is_async() && o.wakers.len() > 1 {
-            let last = *o.wakers.last().unwrap();
-            let old_fired = a
-                .notes
-                .iter()
-                .any(|n| n.kind == rt::NOTE_WAKER_FIRED && o.wakers.contains(&(n.arg as u32)) && n.arg as u32 != last);
-            if old_fired {
-                v.push(Viol {
-                    pred: "stale_waker",
-                    op: Some(*gi),
-                    detail: format!(
-                        "{} is pending on its most recent waker but an earlier waker was woken instead",
-                        o.k.name()
-                    ),
-                });
             }
         }
         match why {
@@ -999,6 +1032,7 @@ fn close_preds(a: &Analysis, v: &mut Vec<Viol>, f: &mut Feat) {
         }
         let bad = match (&o.res, o.k) {
             (Res::Skip, _) | (Res::Stuck, _) | (Res::Done, _) => None,
+            _ if a.rt_busy(i) => None,
             (Res::Err(E::Closed), _) => None,
             (Res::Err(E::CloseErr), K::Close) => None,
             (Res::End, K::IterNext) | (Res::End, K::StreamNext) => None,
@@ -1035,10 +1069,9 @@ fn close_preds(a: &Analysis, v: &mut Vec<Viol>, f: &mut Feat) {
             let so = &a.ops[p.by_op as usize];
             if send_out(so) == SendOut::Success && retx(so) < co.inv {
                 // accepted before close began, never received: must die inside close
-                let ok = p
-                    .drops
-                    .iter()
-                    .any(|d| !d.harness && d.stamp <= cret);
+                // (a value handed to a pending receive future that is dropped later
+                // was not buffered: `take_begin` is then that future's invocation)
+                let ok = a.take_begin(id as u32) <= cret;
                 if ok {
                     f.add("destroyed_by_close", 1);
                 } else {
@@ -1123,8 +1156,7 @@ fn disconnect_preds(a: &Analysis, v: &mut Vec<Viol>, f: &mut Feat) {
                     }
                     let so = &a.ops[p.by_op as usize];
                     if send_out(so) == SendOut::Success && retx(so) < o.inv {
-                        let taken_before = p.recv_by.iter().any(|x| a.ops[*x as usize].inv < r)
-                            || p.drops.iter().any(|d| !d.harness && d.stamp < r);
+                        let taken_before = a.take_begin(id as u32) < r;
                         if !taken_before && a.prog.pay_droppable() {
                             v.push(Viol {
                                 pred: "send_closed_before_drained",
@@ -1164,7 +1196,8 @@ fn disconnect_preds(a: &Analysis, v: &mut Vec<Viol>, f: &mut Feat) {
             if hi <= 0 {
                 f.add("send_after_receivers_gone", 1);
                 let ok = matches!(o.res, Res::Err(E::ReceiveClosed) | Res::Err(E::Closed) | Res::Dropped(0))
-                    || matches!(o.res, Res::Panic(_));
+                    || matches!(o.res, Res::Panic(_))
+                    || a.rt_busy(i);
                 if !ok {
                     v.push(Viol {
                         pred: "send_after_disconnect",
@@ -1187,7 +1220,7 @@ fn disconnect_preds(a: &Analysis, v: &mut Vec<Viol>, f: &mut Feat) {
                     Res::Err(E::SendClosed) | Res::Err(E::Closed) | Res::End | Res::Dropped(_) => true,
                     Res::Err(E::Timeout) => true,
                     Res::Panic(_) => true,
-                    _ => false,
+                    _ => a.rt_busy(i),
                 };
                 if !ok {
                     v.push(Viol {
@@ -1286,7 +1319,7 @@ fn expected_obs(a: &Analysis, q: &Quiescent, send_side: bool) -> (usize, bool, b
 }
 
 fn quiescent_preds(a: &Analysis, v: &mut Vec<Viol>, f: &mut Feat) {
-    let zst = a.prog.pay_is_zst();
+    let zst = !a.len_known();
     let n = a.prog.cap_n();
     let rescue = a.ex.rescue_stamp.unwrap_or(INF);
     let mut check_obs = |ob: &crate::interp::Obs, t: u64, send_side: Option<bool>, opi: Option<u32>, v: &mut Vec<Viol>| {
@@ -1533,12 +1566,9 @@ fn drain_preds(a: &Analysis, v: &mut Vec<Viol>, f: &mut Feat) {
             if !inside_before {
                 continue;
             }
-            // when did it leave?
-            let left_after = match p.recv_by.first() {
-                Some(rop) => a.ops[*rop as usize].inv > r,
-                None => p.drops.iter().filter(|d| !d.harness).all(|d| d.stamp > r),
-            };
-            if left_after && a.complete {
+            // when can it have left at the earliest?
+            let left_after = a.take_begin(id as u32) > r;
+            if left_after && a.complete && a.prog.pay_droppable() {
                 v.push(Viol {
                     pred: "drain_missed_value",
                     op: Some(i as u32),
